@@ -337,6 +337,14 @@ class Interval:
             r = self.ty_range(var)
             base = cur if cur is not None else ((r,) if r else ((-BIG, BIG),))
             st[var] = intersect(base, lo, hi)
+            # the compared temporary is a fresh copy of a variable (`_9 = copy _5; _8 = Gt(_9, ..)`):
+            # the variable holds the same value on this edge
+            src = getattr(self, "_alias", {}).get(var)
+            if src is not None:
+                cur2 = st.get(src)
+                r2 = self.ty_range(src)
+                base2 = cur2 if cur2 is not None else ((r2,) if r2 else ((-BIG, BIG),))
+                st[src] = intersect(base2, lo, hi)
 
         if la is not None and vb is not None:
             blo, bhi = bounds(vb)
@@ -382,6 +390,18 @@ class Interval:
             self.transfer_stmt(st, s)
         t = blk["term"]
         k = t["k"]
+        # copies of bare locals made in this block and still valid at its end
+        alias = {}
+        for s in blk["stmts"]:
+            if s["k"] != "assign":
+                continue
+            tl = s["p"]["l"]
+            for a_, b_ in list(alias.items()):
+                if a_ == tl or b_ == tl:
+                    del alias[a_]
+            if not s["p"]["pr"] and s["rv"]["k"] == "use" and is_place(s["rv"]["op"]) and not s["rv"]["op"]["p"]["pr"] and s["rv"]["op"]["p"]["l"] != tl:
+                alias[tl] = s["rv"]["op"]["p"]["l"]
+        self._alias = alias
         if k == "switch":
             d = t["discr"]
             pred = None
